@@ -678,4 +678,430 @@ theorem shape_filter_of_assignable (d : Ty) : d.wf = true → ∀ (s : Ty) (v : 
             exact ih k t hkt (hwf'.2 k t hkt) t' x (h2 k t' x hkt' hgk) hat (hn k t t' hkt hg)
     | _ => simp [assignable] at ha
 
+/-! ### composition: valid values filter without error; narrowing chains -/
+
+theorem filterBase_of_valid (b : Base) (v : J) (h : valid (.base b) v = true) :
+    filterBase b v = (v, .ok) := by
+  cases b <;> cases v <;> simp [valid, check, checkBase] at h <;> simp [filterBase]
+  case int.num n =>
+    cases n with
+    | int i =>
+      have : Num.inInt64 i = true := by simpa using h
+      simp [this]
+    | flt m e => simp at h
+
+theorem filterFields_ok : ∀ (fs : Fields) (kvs : List (Bytes × J)),
+    (∀ k t, (k, t) ∈ fs.toList → ∃ v, getKey k kvs = some v ∧ (filter t v).2 = .ok) →
+    (filterFields fs kvs).2 = .ok
+  | .nil, kvs, _ => rfl
+  | .cons k t r, kvs, h => by
+    have ih := filterFields_ok r kvs (fun k' t' hm => h k' t' (by simp [Fields.toList, hm]))
+    obtain ⟨v, hv, hok⟩ := h k t (by simp [Fields.toList])
+    simp only [filterFields, hv]
+    by_cases hc : canFilter t = true
+    · simp [hc, hok, ih, FErr.max]
+    · simp [hc, ih]
+
+theorem worstF_eq_ok {vs : List FErr} (h : ∀ v ∈ vs, v = .ok) : worstF vs = .ok := by
+  induction vs with
+  | nil => rfl
+  | cons a r ih =>
+    simp only [worstF, List.foldr_cons]
+    have ha := h a List.mem_cons_self
+    have hr := ih (fun v hv => h v (List.mem_cons_of_mem _ hv))
+    simp only [worstF] at hr
+    rw [ha, hr]; rfl
+
+/-- a value that validates cleanly is filtered without any error -/
+theorem filter_ok_of_valid (t : Ty) : ∀ v, valid t v = true → (filter t v).2 = .ok := by
+  induction t using Ty.induct' with
+  | base b => intro v h; simp [filter, filterBase_of_valid b v h]
+  | user n => intro v h; cases v <;> simp [valid, check] at h <;> simp [filter]
+  | arr t ih =>
+    intro v h
+    by_cases hc : canFilter t = true
+    · have hs := shape_of_valid _ _ h
+      cases hs with
+      | null => simp [filter]
+      | arr _ xs hx =>
+        simp only [filter, hc, Bool.not_true, Bool.false_eq_true, ↓reduceIte]
+        apply worstF_eq_ok
+        rintro _ hm
+        obtain ⟨x, hxm, rfl⟩ := List.mem_map.mp hm
+        exact ih x (valid_of_shape _ _ (hx x hxm))
+    · simp [filter, hc]
+  | tmap t ih =>
+    intro v h
+    by_cases hc : canFilter t = true
+    · have hs := shape_of_valid _ _ h
+      cases hs with
+      | null => simp [filter]
+      | tmap _ kvs h1 _ =>
+        simp only [filter, hc, Bool.not_true, Bool.false_eq_true, ↓reduceIte]
+        apply worstF_eq_ok
+        rintro _ hm
+        obtain ⟨kv, hxm, rfl⟩ := List.mem_map.mp hm
+        exact ih kv.2 (valid_of_shape _ _ (h1 kv hxm))
+    · simp [filter, hc]
+  | struct n fs ih =>
+    intro v h
+    have hs := shape_of_valid _ _ h
+    cases hs with
+    | null => simp [filter]
+    | struct _ _ kvs h1 h2 =>
+      simp only [filter]
+      apply filterFields_ok
+      intro k t hkt
+      have := h1 k t hkt
+      cases hg : getKey k kvs with
+      | none => simp [hg] at this
+      | some x => exact ⟨x, rfl, ih k t hkt x (valid_of_shape _ _ (h2 k t x hkt hg))⟩
+
+theorem pureNarrowFields_iff : ∀ (fs fs' : Fields),
+    pureNarrowFields fs fs' = true ↔
+      ∀ k t t', (k, t) ∈ fs.toList → fs'.get k = some t' → pureNarrow t t' = true
+  | .nil, fs' => by simp [pureNarrowFields, Fields.toList]
+  | .cons k t r, fs' => by
+    have ih := pureNarrowFields_iff r fs'
+    simp only [pureNarrowFields, Bool.and_eq_true, ih, Fields.toList, List.mem_cons, Prod.mk.injEq]
+    constructor
+    · rintro ⟨h1, h2⟩ k' t' t'' (⟨rfl, rfl⟩ | h) hg
+      · simpa [hg] using h1
+      · exact h2 _ _ _ h hg
+    · intro h
+      refine ⟨?_, fun k' t' t'' h' hg => h _ _ _ (Or.inr h') hg⟩
+      cases hg : fs'.get k with
+      | none => rfl
+      | some t' => exact h k t t' (Or.inl ⟨rfl, rfl⟩) hg
+
+/-- scalar source types return a valid value unchanged -/
+theorem filter_fst_of_valid_scalar (s : Ty) (v : J) (hs : valid s v = true)
+    (hsc : (∃ b, s = .base b) ∨ ∃ n, s = .user n) : (filter s v).1 = v := by
+  rcases hsc with ⟨b, rfl⟩ | ⟨n, rfl⟩
+  · simp [filter, filterBase_of_valid b v hs]
+  · cases v <;> simp [filter]
+
+/-- Narrowing chain: for a value that is valid at the wider type `s`,
+filtering to `s` first and then to the narrower `d` gives the same value as
+filtering to `d` directly. -/
+theorem filter_chain (d : Ty) : d.wf = true → ∀ (s : Ty) (v : J), s.wf = true → valid s v = true →
+    assignable d s = true → pureNarrow d s = true →
+    (filter d (filter s v).1).1 = (filter d v).1 := by
+  induction d using Ty.induct' with
+  | base b =>
+    intro _ s v _ hs ha hp
+    cases s with
+    | base s' => rw [filter_fst_of_valid_scalar _ v hs (Or.inl ⟨s', rfl⟩)]
+    | user m => rw [filter_fst_of_valid_scalar _ v hs (Or.inr ⟨m, rfl⟩)]
+    | struct n fs => simp [assignable] at ha; simp [pureNarrow, ha] at hp
+    | tmap t => simp [assignable] at ha; simp [pureNarrow, ha] at hp
+    | arr t => simp [assignable] at ha
+  | user n =>
+    intro _ s v _ hs ha _
+    cases s with
+    | base s' => rw [filter_fst_of_valid_scalar _ v hs (Or.inl ⟨s', rfl⟩)]
+    | user m => rw [filter_fst_of_valid_scalar _ v hs (Or.inr ⟨m, rfl⟩)]
+    | _ => simp [assignable] at ha
+  | arr d ih =>
+    intro hwf s v hswf hs ha hp
+    have ih := ih (by simpa [Ty.wf] using hwf)
+    cases s with
+    | arr s' =>
+      simp only [assignable] at ha
+      simp only [pureNarrow] at hp
+      have hswf' : s'.wf = true := by simpa [Ty.wf] using hswf
+      have hsh := shape_of_valid _ _ hs
+      cases hsh with
+      | null => rw [filter_null]
+      | arr _ xs hx =>
+        rw [filter_arr_fst, filter_arr_fst, filter_arr_fst, List.map_map]
+        congr 1
+        apply List.map_congr_left
+        intro x hxm
+        exact ih s' x hswf' (valid_of_shape _ _ (hx x hxm)) ha hp
+    | _ => simp [assignable] at ha
+  | tmap d ih =>
+    intro hwf s v hswf hs ha hp
+    have ih := ih (by simpa [Ty.wf] using hwf)
+    cases s with
+    | tmap s' =>
+      simp only [assignable] at ha
+      simp only [pureNarrow] at hp
+      have hswf' : s'.wf = true := by simpa [Ty.wf] using hswf
+      have hsh := shape_of_valid _ _ hs
+      cases hsh with
+      | null => rw [filter_null]
+      | tmap _ kvs h1 _ =>
+        rw [filter_tmap_fst, filter_tmap_fst, filter_tmap_fst, List.map_map]
+        congr 1
+        apply List.map_congr_left
+        intro kv hm
+        simp only [Function.comp, Prod.mk.injEq, true_and]
+        exact ih s' kv.2 hswf' (valid_of_shape _ _ (h1 kv hm)) ha hp
+    | struct n fs => simp [pureNarrow] at hp
+    | _ => simp [assignable] at ha
+  | struct n fs ih =>
+    intro hwf s v hswf hs ha hp
+    have hwf' := Fields.wf_iff.mp (by simpa [Ty.wf] using hwf)
+    cases s with
+    | struct n' fs' =>
+      have hswf' := Fields.wf_iff.mp (by simpa [Ty.wf] using hswf)
+      simp only [assignable, assignableFields_iff] at ha
+      simp only [pureNarrow, pureNarrowFields_iff] at hp
+      have hsh := shape_of_valid _ _ hs
+      cases hsh with
+      | null => rw [filter_null]
+      | struct _ _ kvs h1 h2 =>
+        rw [filter_struct_fst n' fs' kvs, filter_struct_fst, filter_struct_fst]
+        congr 1
+        apply List.map_congr_left
+        rintro ⟨k, t⟩ hkt
+        simp only [Prod.mk.injEq, true_and]
+        obtain ⟨t', hg, _, hat⟩ := ha k t hkt
+        have hkt' := Fields.get_mem hg
+        have hsome := h1 k t' hkt'
+        cases hgk : getKey k kvs with
+        | none => simp [hgk] at hsome
+        | some x =>
+          have hmem : (k, fieldOut t' (getKey k kvs)) ∈
+              fs'.toList.map (fun kt => (kt.1, fieldOut kt.2 (getKey kt.1 kvs))) :=
+            List.mem_map.mpr ⟨(k, t'), hkt', rfl⟩
+          rw [getKey_of_mem_nodup (by rw [keys_fields_out]; exact hswf'.1) hmem, hgk]
+          simp only [fieldOut]
+          exact ih k t hkt (hwf'.2 k t hkt) t' x (hswf'.2 k t' hkt')
+            (valid_of_shape _ _ (h2 k t' x hkt' hgk)) hat (hp k t t' hkt hg)
+    | _ => simp [assignable] at ha
+
+/-! ### `noHole` is exact: on every other assignable pair a counterexample exists -/
+
+/-- for every type there is a value that does not have its shape even after filtering -/
+theorem exists_bad (d : Ty) : ∃ w, ¬ Shape d (filter d w).1 := by
+  cases d with
+  | base b =>
+    by_cases hb : b = .bool
+    · subst hb; exact ⟨.str [], by simp [filter, filterBase]; intro h; cases h⟩
+    · refine ⟨.bool true, ?_⟩
+      cases b <;> simp [filter, filterBase] at hb ⊢ <;> intro h <;> cases h
+  | user n => exact ⟨.bool true, by simp [filter]; intro h; cases h⟩
+  | arr t =>
+    refine ⟨.bool true, ?_⟩
+    by_cases hc : canFilter t = true <;> simp [filter, hc] <;> intro h <;> cases h
+  | tmap t =>
+    refine ⟨.bool true, ?_⟩
+    by_cases hc : canFilter t = true <;> simp [filter, hc] <;> intro h <;> cases h
+  | struct n fs => exact ⟨.bool true, by simp [filter]; intro h; cases h⟩
+
+theorem getKey_append_last (k : Bytes) (v : J) : ∀ (l : List (Bytes × J)),
+    getKey k (l ++ [(k, v)]) = some v
+  | [] => by simp [getKey]
+  | (k', v') :: r => by simp [getKey, getKey_append_last k v r]
+
+theorem getKey_append_ne {k k' : Bytes} (v : J) (h : k' ≠ k) : ∀ (l : List (Bytes × J)),
+    getKey k (l ++ [(k', v)]) = getKey k l
+  | [] => by simp [getKey, h]
+  | (k'', v'') :: r => by simp [getKey, getKey_append_ne v h r]
+
+/-- a key that is not a member name -/
+theorem exists_fresh (fs : Fields) : ∃ k : Bytes, k ∉ fs.toList.map Prod.fst := by
+  let n := ((fs.toList.map Prod.fst).map List.length).sum
+  refine ⟨List.replicate (n + 1) 0x78, ?_⟩
+  intro hm
+  have : ∀ (ls : List Bytes) (x : Bytes), x ∈ ls → x.length ≤ (ls.map List.length).sum := by
+    intro ls
+    induction ls with
+    | nil => intro x hx; cases hx
+    | cons a r ih =>
+      intro x hx
+      simp only [List.map_cons, List.sum_cons]
+      rcases List.mem_cons.mp hx with rfl | hx
+      · omega
+      · have := ih x hx; omega
+  have := this _ _ hm
+  simp only [List.length_replicate] at this
+  omega
+
+/-- all declared members present with value `g k` -/
+theorem getKey_fields_map (fs : Fields) (g : Bytes → J) (hn : (fs.toList.map Prod.fst).Nodup)
+    {k : Bytes} {t : Ty} (h : (k, t) ∈ fs.toList) :
+    getKey k (fs.toList.map fun kt => (kt.1, g kt.1)) = some (g k) := by
+  apply getKey_of_mem_nodup
+  · rw [keys_fields_out fs (fun kt => g kt.1)]; exact hn
+  · exact List.mem_map.mpr ⟨(k, t), h, rfl⟩
+
+theorem getKey_fields_map_none (fs : Fields) (g : Bytes → J) {k : Bytes}
+    (h : k ∉ fs.toList.map Prod.fst) :
+    getKey k (fs.toList.map fun kt => (kt.1, g kt.1)) = none := by
+  rw [getKey_eq_none_iff, keys_fields_out fs (fun kt => g kt.1)]
+  exact h
+
+theorem noHole_exact (d : Ty) : d.wf = true → ∀ s : Ty, s.wf = true → assignable d s = true →
+    noHole d s = false → ∃ v, Shape s v ∧ ¬ Shape d (filter d v).1 := by
+  induction d using Ty.induct' with
+  | base b => intro _ s _ _ hn; simp [noHole] at hn
+  | user n => intro _ s _ _ hn; simp [noHole] at hn
+  | arr d ih =>
+    intro hwf s hswf ha hn
+    cases s with
+    | arr s' =>
+      simp only [assignable] at ha
+      simp only [noHole] at hn
+      obtain ⟨w, hw1, hw2⟩ := ih (by simpa [Ty.wf] using hwf) s' (by simpa [Ty.wf] using hswf) ha hn
+      refine ⟨.arr [w], Shape.arr _ _ (by simpa using hw1), ?_⟩
+      rw [filter_arr_fst]
+      intro h
+      cases h with
+      | arr _ _ hx => exact hw2 (hx _ (by simp))
+    | _ => simp [assignable] at ha
+  | tmap d ih =>
+    intro hwf s hswf ha hn
+    cases s with
+    | tmap s' =>
+      simp only [assignable] at ha
+      simp only [noHole, Bool.and_eq_false_iff, Bool.or_eq_false_iff, Bool.not_eq_false'] at hn
+      rcases hn with ⟨hd, hs'⟩ | hn
+      · -- F9: directory-like destination, source is not
+        refine ⟨.obj [([0x61, 0x2F, 0x62], .null)], Shape.tmap _ _ ?_ ?_, ?_⟩
+        · intro kv hkv
+          simp only [List.mem_singleton] at hkv
+          subst hkv; exact Shape.null _
+        · intro h; rw [hs'] at h; cases h
+        · rw [filter_tmap_fst]
+          intro h
+          cases h with
+          | tmap _ _ _ h2 =>
+            have : legalName [0x61, 0x2F, 0x62] = true :=
+              h2 hd ([0x61, 0x2F, 0x62], (filter d .null).1) (by simp)
+            revert this; decide
+      · obtain ⟨w, hw1, hw2⟩ := ih (by simpa [Ty.wf] using hwf) s' (by simpa [Ty.wf] using hswf) ha hn
+        refine ⟨.obj [([0x6B], w)], Shape.tmap _ _ ?_ ?_, ?_⟩
+        · intro kv hkv
+          simp only [List.mem_singleton] at hkv
+          subst hkv; exact hw1
+        · intro _ kv hkv
+          simp only [List.mem_singleton] at hkv
+          subst hkv; show legalName [0x6B] = true; decide
+        · rw [filter_tmap_fst]
+          intro h
+          cases h with
+          | tmap _ _ h1 _ => exact hw2 (h1 ([0x6B], (filter d w).1) (by simp))
+    | struct n fs' =>
+      -- F10: an undeclared member with a value the map's element type does not accept
+      have hswf' := Fields.wf_iff.mp (by simpa [Ty.wf] using hswf)
+      obtain ⟨fresh, hfresh⟩ := exists_fresh fs'
+      obtain ⟨bad, hbad⟩ := exists_bad d
+      have hb : ∀ k t, (k, t) ∈ fs'.toList →
+          getKey k (fs'.toList.map fun kt => (kt.1, (fun _ => J.null) kt.1)) = some .null :=
+        fun k t h => getKey_fields_map fs' (fun _ => J.null) hswf'.1 h
+      refine ⟨.obj ((fs'.toList.map fun kt => (kt.1, (fun _ => J.null) kt.1)) ++ [(fresh, bad)]), Shape.struct _ _ _ ?_ ?_, ?_⟩
+      · intro k t hkt
+        have hne : fresh ≠ k := by
+          rintro rfl; exact hfresh (List.mem_map.mpr ⟨(fresh, t), hkt, rfl⟩)
+        rw [getKey_append_ne _ hne, hb k t hkt]; rfl
+      · intro k t v hkt hg
+        have hne : fresh ≠ k := by
+          rintro rfl; exact hfresh (List.mem_map.mpr ⟨(fresh, t), hkt, rfl⟩)
+        rw [getKey_append_ne _ hne, hb k t hkt] at hg
+        cases hg; exact Shape.null _
+      · rw [filter_tmap_fst]
+        intro h
+        cases h with
+        | tmap _ _ h1 _ =>
+          exact hbad (h1 (fresh, (filter d bad).1) (by simp))
+    | _ => simp [assignable] at ha
+  | struct n fs ih =>
+    intro hwf s hswf ha hn
+    have hwf' := Fields.wf_iff.mp (by simpa [Ty.wf] using hwf)
+    cases s with
+    | struct n' fs' =>
+      have hswf' := Fields.wf_iff.mp (by simpa [Ty.wf] using hswf)
+      simp only [assignable, assignableFields_iff] at ha
+      have hex : ∃ k t t', (k, t) ∈ fs.toList ∧ fs'.get k = some t' ∧ noHole t t' = false := by
+        apply Classical.byContradiction
+        intro hne
+        have : noHoleFields fs fs' = true := by
+          rw [noHoleFields_iff]
+          intro k t t' hkt hg
+          cases hh : noHole t t' with
+          | true => rfl
+          | false => exact absurd ⟨k, t, t', hkt, hg, hh⟩ hne
+        simp [noHole, this] at hn
+      obtain ⟨k, t, t', hkt, hg, hh⟩ := hex
+      have hkt' := Fields.get_mem hg
+      obtain ⟨_, hg', _, hat⟩ := ha k t hkt
+      rw [hg] at hg'; cases hg'
+      obtain ⟨w, hw1, hw2⟩ := ih k t hkt (hwf'.2 k t hkt) t' (hswf'.2 k t' hkt') hat hh
+      let g : Bytes → J := fun k' => if k' = k then w else .null
+      refine ⟨.obj (fs'.toList.map fun kt => (kt.1, g kt.1)), Shape.struct _ _ _ ?_ ?_, ?_⟩
+      · intro k' t'' h; rw [getKey_fields_map fs' g hswf'.1 h]; rfl
+      · intro k' t'' v h hgv
+        rw [getKey_fields_map fs' g hswf'.1 h] at hgv
+        cases hgv
+        by_cases hk : k' = k
+        · subst hk
+          have : t'' = t' := by
+            have := Fields.get_of_mem hswf'.1 h
+            rw [hg] at this; cases this; rfl
+          subst this
+          simp [g, hw1]
+        · simp [g, hk]; exact Shape.null _
+      · rw [filter_struct_fst]
+        intro h
+        cases h with
+        | struct _ _ _ _ h2 =>
+          have hmem : (k, fieldOut t (getKey k (fs'.toList.map fun kt => (kt.1, g kt.1)))) ∈
+              fs.toList.map (fun kt => (kt.1, fieldOut kt.2 (getKey kt.1 (fs'.toList.map fun kt => (kt.1, g kt.1))))) :=
+            List.mem_map.mpr ⟨(k, t), hkt, rfl⟩
+          have hgo := getKey_of_mem_nodup (by rw [keys_fields_out]; exact hwf'.1) hmem
+          have := h2 k t _ hkt hgo
+          rw [getKey_fields_map fs' g hswf'.1 hkt'] at this
+          simp only [fieldOut, g, ↓reduceIte] at this
+          exact hw2 this
+    | _ => simp [assignable] at ha
+
+/-! ### when does assignability preserve the `TypeId` shape -/
+
+theorem arrayDim_eq_of_assignable (d : Ty) : ∀ s, assignable d s = true → (dims d).1 = (dims s).1 := by
+  induction d using Ty.induct' with
+  | base b => intro s h; cases s <;> simp [assignable] at h <;> simp [dims]
+  | user n => intro s h; cases s <;> simp [assignable] at h <;> simp [dims]
+  | arr d ih =>
+    intro s h
+    cases s <;> simp [assignable] at h
+    case arr s' => simp [dims, ih s' h]
+  | tmap d _ => intro s h; cases s <;> simp [assignable] at h <;> simp [dims]
+  | struct n fs _ => intro s h; cases s <;> simp [assignable] at h <;> simp [dims]
+
+theorem dims_eq_of_assignable (d : Ty) : ∀ s, assignable d s = true → mapCoercion d s = false →
+    dims d = dims s := by
+  induction d using Ty.induct' with
+  | base b =>
+    intro s h hm
+    cases s <;> simp [assignable] at h <;> simp [dims]
+    case tmap t => subst h; simp [mapCoercion] at hm
+  | user n => intro s h _; cases s <;> simp [assignable] at h <;> simp [dims]
+  | arr d ih =>
+    intro s h hm
+    cases s <;> simp [assignable] at h
+    case arr s' =>
+      simp only [mapCoercion] at hm
+      simp [dims, ih s' h hm]
+  | tmap d _ =>
+    intro s h hm
+    cases s <;> simp [assignable] at h
+    case tmap s' => simp [dims, arrayDim_eq_of_assignable d s' h]
+    case struct n fs => simp [mapCoercion] at hm
+  | struct n fs _ => intro s h _; cases s <;> simp [assignable] at h <;> simp [dims]
+
+theorem checkFields_dedupLast : ∀ (fs : Fields) (kvs : List (Bytes × J)),
+    checkFields fs (dedupLast kvs) = checkFields fs kvs
+  | .nil, _ => rfl
+  | .cons k t r, kvs => by
+    simp only [checkFields, getKey_dedupLast, checkFields_dedupLast r kvs]
+
+theorem filterFields_dedupLast : ∀ (fs : Fields) (kvs : List (Bytes × J)),
+    filterFields fs (dedupLast kvs) = filterFields fs kvs
+  | .nil, _ => rfl
+  | .cons k t r, kvs => by
+    simp only [filterFields, getKey_dedupLast, filterFields_dedupLast r kvs]
+
 end Martian.Types
